@@ -394,11 +394,12 @@ macro_rules! op_rule {
 
 op_rule!(op_6, op_7, alt((tag("*"), tag("/"), tag("%"),)));
 op_rule!(op_5, op_6, alt((tag("+"), tag("-"))));
-op_rule!(op_4_1, op_5, alt((tag("<<"), tag(">>"), tag(">>>"))));
+// alt() takes the first alternative that matches: an operator must come before any operator it starts with
+op_rule!(op_4_1, op_5, alt((tag("<<"), tag(">>>"), tag(">>"))));
 op_rule!(
     op_4,
     op_4_1,
-    alt((tag(">"), tag(">="), tag("<"), tag("<=")))
+    alt((tag(">="), tag(">"), tag("<="), tag("<")))
 );
 op_rule!(
     op_3,
